@@ -49,15 +49,16 @@ GROUP_PROPS = {
 
 def attribute(prop, scen, rej):
     fam = scen.get('fam', prop)
+    ofam = scen.get('ofam', fam)     # family the scenario was originally generated for
     if PROPS.get(fam, {}).get('own_attribution'):
         return {fam}       # single-property families with their own trace specification
     evn = rej['event'].get('ev')
     if evn == 'Leak':       # goroutines left behind after the connection was torn down
         return {'C10', 'C14'} | ({fam} if fam in ('C17', 'C18', 'C19') else set())
     if evn == 'Wedged':     # a real lock deadlock: nothing on the connection completes any more
-        return {fam, 'C11'}
+        return {ofam, 'C11'}
     if evn == 'Crash':
-        return {fam}
+        return {ofam}
     out = set()
     for g in rej['groups']:
         if g == 'pay':
@@ -81,7 +82,7 @@ def attribute(prop, scen, rej):
     if scen.get('rawcli'):
         out.add('C12')
     if not rej['groups']:
-        out.add(fam)
+        out.add(ofam)
     return out
 
 
@@ -117,6 +118,9 @@ NOT_APPLICABLE = {
 }
 
 PROPS = {
+    'C06': dict(rule='the wire histories of the program families of C01-C04, C07 and C11 (early returns, cancellations, errors, resets, late bodies, the srv.writer.window schedule) judged per id and direction by the wire-protocol rules of the specification (rule group wire: open shape, bodies, at most one close with status, nothing after it, single final client reset, server reset only for unknown streams and never before the trailer, constant method/source/destination, metadata only on the first response envelope, ids echoed); non-trivial = the scenario puts at least one RPC on the wire', nontrivial_ops=['ucall', 'sopen'], assumptions=COMMON_ASSUMPTIONS, models=[], gen='c06'),
+    'C14': dict(rule='(a) histories of RPCs of all four kinds with outcomes {ok, handler error, cancel, deadline, early handler return (server reset), failed open} stepped through the full specification with a census after every RPC; (b) long self-driving histories (10^4 RPCs quick, 10^6 thorough, 32 at a time) validated against the slim registry specification at every quiescent point; non-trivial = every history', nontrivial_ops=['q', 'history'], assumptions=COMMON_ASSUMPTIONS + ['in the long histories the driver decides that a point is idle (every RPC goroutine of the wave returned, no handler live); the specification then demands empty registries and the idle goroutine level'], models=[], parts=[dict(gen='c14', trace_spec='GoatTrace.tla', shard_size=1), dict(gen='c14_long', trace_spec='GoatRegistryTrace.tla', shard_size=1)]),
+    'C05': dict(rule='raw server answering k outstanding calls with every interleaving (multiset permutation) of their response envelopes; raw client interleaving the request envelopes of k streams into a real server; 16..64 calls started at once; long call histories (slim specification); non-trivial = at least two calls outstanding', nontrivial_ops=['inj', 'ucall', 'history'], assumptions=COMMON_ASSUMPTIONS, models=[], parts=[dict(gen='c05', trace_spec='GoatTrace.tla'), dict(gen='c05_long', trace_spec='GoatRegistryTrace.tla', shard_size=1)]),
     'C07': dict(rule='3 stream kinds x 3 programs (echo, burst, idle handler) x cancellation after every prefix of the client program x {explicit cancel, deadline expiry on the virtual clock} x bystander calls; cancellation with 0..5 responses queued unread; every scenario continues with a later Recv, a later Send and a probe call; non-trivial = contains a cancel or a deadline', nontrivial_ops=['cancel', 'adv'], assumptions=COMMON_ASSUMPTIONS, models=[]),
     'C09': dict(rule='client read failure after every prefix of the response sequence of 4 base conversations x write side {writable, failing}, followed by calls started after the failure; calls parked in the failure-check -> registration window (gate mux.call.window) while the failure lands; non-trivial = contains a client read fault', nontrivial_ops=['fault'], assumptions=COMMON_ASSUMPTIONS, models=[]),
     'C10': dict(rule='connection end by {read failure, write failure, Stop} with u unary and s streaming handlers in flight parked in {receive, context wait, blocked send}; end at every step of a mixed conversation; non-trivial = contains a server-side fault', nontrivial_ops=['fault'], assumptions=COMMON_ASSUMPTIONS, models=[]),
